@@ -113,8 +113,61 @@ pub fn replay_harness(name: &str, vals: Vec<Vec<u8>>) -> Result<bool, String> {
     }
 }
 
-/// Other replay-tool subcommands (witness search, dependency-model cross-checks).
-pub fn tool(cmd: &str, _args: &[String]) -> i32 {
-    eprintln!("unknown subcommand {}", cmd);
-    2
+fn unhex(s: &str) -> Vec<u8> {
+    (0..s.len() / 2).map(|i| u8::from_str_radix(&s[2 * i..2 * i + 2], 16).unwrap()).collect()
+}
+fn hex(b: &[u8]) -> String {
+    b.iter().map(|x| format!("{:02x}", x)).collect()
+}
+
+/// Other replay-tool subcommands: run one real function on one concrete input.
+/// Exit code 0 = returned normally (result printed), 1 = panicked (REPRODUCED-PANIC printed).
+pub fn tool(cmd: &str, args: &[String]) -> i32 {
+    let cmd = cmd.to_string();
+    let args: Vec<String> = args.to_vec();
+    let r = std::panic::catch_unwind(move || match cmd.as_str() {
+        "decompress" => {
+            let x = unhex(&args[0]);
+            let n: usize = args[1].parse().unwrap();
+            let r = crate::encoding::decompress(&x, n);
+            println!("decompress({}, {}) = {:?}", args[0], n, r);
+            if let Some(v) = &r {
+                let back = crate::encoding::compress(v, x.len());
+                println!("recompress = {:?}", back.as_ref().map(|b| hex(b)));
+                if back.as_deref() != Some(&x[..]) {
+                    println!("NON-CANONICAL: accepted string does not re-encode to itself");
+                    return 3;
+                }
+            }
+            0
+        }
+        "compress" => {
+            let v: Vec<i16> = args[0].split(',').filter(|s| !s.is_empty()).map(|s| s.parse().unwrap()).collect();
+            let l: usize = args[1].parse().unwrap();
+            let r = crate::encoding::compress(&v, l);
+            println!("compress({:?}, {}) = {:?}", v, l, r.as_ref().map(|b| hex(b)));
+            if let Some(b) = &r {
+                let back = crate::encoding::decompress(b, v.len());
+                println!("decompress back = {:?}", back);
+                if back.as_ref() != Some(&v) {
+                    println!("ROUND-TRIP-FAILS");
+                    return 3;
+                }
+            }
+            0
+        }
+        _ => {
+            eprintln!("unknown subcommand {}", cmd);
+            2
+        }
+    });
+    match r {
+        Ok(c) => c,
+        Err(e) => {
+            let msg = if let Some(s) = e.downcast_ref::<&str>() { s.to_string() }
+                else if let Some(s) = e.downcast_ref::<String>() { s.clone() } else { "panic".into() };
+            println!("REPRODUCED-PANIC {:?}", msg);
+            1
+        }
+    }
 }
